@@ -400,14 +400,24 @@ def setup():
 def main():
     ap = argparse.ArgumentParser()
     ap.add_argument("pid", nargs="?")
-    ap.add_argument("--tier", default=os.environ.get("VERIF_TIER", "quick"))
+    ap.add_argument("--tier", default=None)
     ap.add_argument("--setup", action="store_true")
     ap.add_argument("--replay")
     a = ap.parse_args()
     seed = int(os.environ.get("VERIF_SEED", "0") or 0)
     if a.setup:
         sys.exit(setup())
-    sys.exit(run_check(a.pid, a.tier, seed, a.replay))
+    tier = a.tier or os.environ.get("VERIF_TIER")
+    if a.replay:
+        # a replay runs in the tier and with the seed of the run that recorded it (checks whose replay re-runs the generator need both)
+        try:
+            rec = json.load(open(a.replay))
+            tier = tier or rec.get("tier")
+            if "VERIF_SEED" not in os.environ and rec.get("seed") is not None:
+                seed = int(rec["seed"])
+        except Exception:
+            pass
+    sys.exit(run_check(a.pid, tier or "quick", seed, a.replay))
 
 
 if __name__ == "__main__":
